@@ -7,11 +7,14 @@ extern "C" void vp_enter(int tid, int writer);
 extern "C" void vp_leave(int tid, int writer);
 extern "C" void vp_queued(int tid);           // observer: thread has entered the queue (after the tail exchange)
 extern "C" void vp_try_result(int tid, int ok);
+extern "C" void vp_wait_reader(int tid);      // harness: blocks (VP_BLOCK) until another thread is inside as a reader
 
-// ---- spin_mutex: op 0 = lock, 1 = try_lock
+// ---- spin_mutex: op 0 = lock, 1 = try_lock, 2 = scoped_lock acquire/release, 3 = scoped_lock try_acquire/release
 extern "C" void vp_thr_sm(spin_mutex* m, int tid, int op) {
   if (op == 0) { m->lock(); vp_enter(tid, 1); vp_leave(tid, 1); m->unlock(); }
-  else { bool ok = m->try_lock(); vp_try_result(tid, ok); if (ok) { vp_enter(tid, 1); vp_leave(tid, 1); m->unlock(); } }
+  else if (op == 1) { bool ok = m->try_lock(); vp_try_result(tid, ok); if (ok) { vp_enter(tid, 1); vp_leave(tid, 1); m->unlock(); } }
+  else if (op == 2) { spin_mutex::scoped_lock l; l.acquire(*m); vp_enter(tid, 1); vp_leave(tid, 1); l.release(); }
+  else { spin_mutex::scoped_lock l; bool ok = l.try_acquire(*m); vp_try_result(tid, ok); if (ok) { vp_enter(tid, 1); vp_leave(tid, 1); } }   // released by ~scoped_lock
 }
 // ---- spin_rw_mutex: role 0 reader, 1 writer, 2 reader then upgrade, 3 writer then downgrade, 4 try reader, 5 try writer
 extern "C" void vp_thr_rw(spin_rw_mutex* m, int tid, int role) {
@@ -21,7 +24,7 @@ extern "C" void vp_thr_rw(spin_rw_mutex* m, int tid, int role) {
     if (ok) { vp_enter(tid, role == 5); vp_leave(tid, role == 5); l.release(); }
     return;
   }
-  bool w = (role == 1 || role == 3);
+  bool w = (role == 1 || role == 3 || role == 6);
   l.acquire(*m, w);
   vp_enter(tid, w);
   if (role == 2) {
@@ -30,8 +33,13 @@ extern "C" void vp_thr_rw(spin_rw_mutex* m, int tid, int role) {
     vp_enter(tid, 2 + (ok ? 1 : 0));        // writer section; bit0 = upgrade claimed to be atomic
     vp_leave(tid, 1);
   } else if (role == 3) {
+    vp_leave(tid, 3);                       // ghost: writer -> reader (recorded before the real downgrade, so that a reader
+    l.downgrade_to_reader();                //   admitted right after it never sees a ghost writer); no gap: a writer entering
+    vp_leave(tid, 0);                       //   from here on would see readers != 0
+  } else if (role == 6) {                   // writer, downgrade, keep the read lock until another reader got in, release
+    vp_leave(tid, 3);
     l.downgrade_to_reader();
-    vp_leave(tid, 3);                       // writer -> reader without a gap
+    vp_wait_reader(tid);
     vp_leave(tid, 0);
   } else vp_leave(tid, w);
   l.release();
@@ -41,6 +49,34 @@ extern "C" void vp_thr_qm(queuing_mutex* m, int tid, int op) {
   queuing_mutex::scoped_lock l;
   if (op == 0) { l.acquire(*m); vp_enter(tid, 1); vp_leave(tid, 1); l.release(); }
   else { bool ok = l.try_acquire(*m); vp_try_result(tid, ok); if (ok) { vp_enter(tid, 1); vp_leave(tid, 1); l.release(); } }
+}
+// ---- variants with real data inside the critical section (plain, non-atomic read-modify-write of a word protected by the lock):
+// "everything written inside a critical section is visible to the next holder"; meaningful in the TSO units, where these
+// accesses go through the per-thread store buffer like any other store of the translated code.
+unsigned long vp_data;
+extern "C" void vp_thr_sm_d(spin_mutex* m, int tid, int op) {
+  if (op == 0) { m->lock(); vp_enter(tid, 1); vp_data = vp_data + 1; vp_leave(tid, 1); m->unlock(); }
+  else { bool ok = m->try_lock(); vp_try_result(tid, ok); if (ok) { vp_enter(tid, 1); vp_data = vp_data + 1; vp_leave(tid, 1); m->unlock(); } }
+}
+extern "C" void vp_thr_qm_d(queuing_mutex* m, int tid, int op) {
+  queuing_mutex::scoped_lock l;
+  if (op == 0) { l.acquire(*m); vp_enter(tid, 1); vp_data = vp_data + 1; vp_leave(tid, 1); l.release(); }
+  else { bool ok = l.try_acquire(*m); vp_try_result(tid, ok); if (ok) { vp_enter(tid, 1); vp_data = vp_data + 1; vp_leave(tid, 1); l.release(); } }
+}
+// role 0 reader (reads the word twice: must not change under a read lock), 1 writer (increments)
+extern "C" void vp_data_read(int tid, unsigned long v1, unsigned long v2);
+extern "C" void vp_thr_rw_d(spin_rw_mutex* m, int tid, int role) {
+  if (role == 1) { m->lock(); vp_enter(tid, 1); vp_data = vp_data + 1; vp_leave(tid, 1); m->unlock(); }
+  else { m->lock_shared(); vp_enter(tid, 0); unsigned long a = *(volatile unsigned long*)&vp_data, b = *(volatile unsigned long*)&vp_data; vp_data_read(tid, a, b); vp_leave(tid, 0); m->unlock_shared(); }
+}
+// ---- TSO machinery self-test (store-buffering litmus, no lock involved): x = 1 (fence==2: x.exchange(1)); [fence==1: full fence]; r = y
+std::atomic<int> vp_sb_x[2];
+extern "C" void vp_sb_result(int tid, int r);
+extern "C" void vp_thr_sb(int tid, int fence) {
+  if (fence == 2) vp_sb_x[tid].exchange(1);   // locked RMW (xchg) instead of a plain store: drains the buffer
+  else vp_sb_x[tid].store(1, std::memory_order_relaxed);
+  if (fence == 1) tbb::detail::atomic_fence_seq_cst();      // the real oneTBB full-fence helper (_machine.h)
+  vp_sb_result(tid, vp_sb_x[1 - tid].load(std::memory_order_relaxed));
 }
 // accessors used by the harness oracles (white-box via -fno-access-control)
 extern "C" unsigned long vp_sm_word(spin_mutex* m) { return m->m_flag.load(std::memory_order_relaxed); }
